@@ -5,7 +5,7 @@
 //!   DP <addr> <baud 0..10> <slot_bits> <max_retry> <min_tsdr> <wd_ms|-> <bufsize> <A|V><nslots> <autotake 0|1> <t0>
 //!   P <slot|-|L> <addr> <ident> <sync><freeze><failsafe> <groups> <max_tsdr> <prm hex|-|N> <cfg hex|-|N> <in> <out> <diagbuf>
 //!   S <addr> <ident> <cfg hex|-> <in> <out>                      (slave k belongs to peripheral k)
-//!   ops: X0 X1 D Q L M:<reply> J:<reply> W:<reply> T<dt> RD<k> WQ<k>:<hex> OP CLR STP TK ADD<k> PC<k>
+//!   ops: X0 X1 D Q L M:<reply> J:<reply> W:<reply> T<dt> RD<k> WQ<k>:<hex> OP CLR STP TK ADD<k> ADDF<k> PC<k>
 //!        SF<k>:<silent>:<ready_delay>:<stat_diag>:<diag_pending>:<force1>:<force2>:<ext hex>:<ident> CLEAN
 //!   <reply> = sc | dx:<status>:<pdu> | dg:<dsap|->:<ssap|->:<status>:<pdu> | rq:<pdu> | raw:<hex>
 //!   <pdu>   = <hex|-> | @<delta>:<seed>    (length of the addressed peripheral's input image + delta)
@@ -701,8 +701,13 @@ impl<'a> Run<'a> {
             return Ok(());
         }
         if let Some(r) = op.strip_prefix("ADD") {
+            // ADD<k>: only between requests; ADDF<k>: also while a reply is pending (not generated)
+            let (forced, r) = match r.strip_prefix('F') {
+                Some(r2) => (true, r2),
+                None => (false, r),
+            };
             let k: usize = r.parse().map_err(|_| "ADD")?;
-            if k < self.handles.len() && self.handles[k].is_none() && self.pending.is_none() {
+            if k < self.handles.len() && self.handles[k].is_none() && (forced || self.pending.is_none()) {
                 self.begin(&format!("ADD {} ", k));
                 let p = make_periph(&self.conf.periphs[k]);
                 let m = &mut self.master;
